@@ -33,7 +33,8 @@ VARIABLES machine, par, jdd, k, cols, todel, built
 vars == <<machine, par, jdd, k, cols, todel, built>>
 
 SplitParams ==
-    [a : UNION {[1..T -> 1..MaxA] : T \in 1..MaxT}, lo : 1..2, hi : 2..MaxK, target : 0..(MaxK + 1),
+    [a : UNION {{x \in [1..T -> 0..MaxA] : x[1] >= 1} : T \in 1..MaxT}, lo : 1..2, hi : 2..MaxK,     \* a probability may be 0 (the first one is positive)
+     target : 0..(MaxK + 1),
      delta : BOOLEAN, f : [1..MaxK -> 0..MaxF]]
 InitSplit == /\ machine = "split"
              /\ par \in {p \in SplitParams : p.lo < p.hi /\ \E kk \in p.lo..(p.hi - 1) : p.f[kk] > 0}
